@@ -604,6 +604,13 @@ def run_world(world):
     import jax
     import jax.random as jr
 
+    for pre in world.get("prelude", []):
+        # history before the model under test exists: other models built (and dropped) in the same
+        # process — exposes construction-order dependence through process-global state
+        try:
+            zoo.build(pre)
+        except Exception:  # noqa: BLE001
+            pass
     model_plain, model0, applied = build_world_model(world)
     shape, cond_dim = zoo.model_dims(world["model"])
     opt = observing_optimizer(world["opt"], world["lr"])
